@@ -258,6 +258,7 @@ package router
 //@   props C03 C09 C13 C01
 //@   requires query != nil && wfMsg(query)
 //@   requires resp == nil || (wfMsg(resp) && smallMsg(resp))
+//@   requires [C20:query-not-yet-released] !attr(released, query)
 //@   modifies pkgheaps(dnsmsg), bytes()
 //@   ensures [C03:always-a-response] b != nil && len(b) >= (tcp ? 14 : 12)
 //@   ensures [C09:limit] !tcp && size >= 512 && (resp == nil || old(optSmall(resp))) ==> len(b) <= (size > 65535 ? 65535 : size)
@@ -472,9 +473,20 @@ package router
 //@   aftercall Next: inb = inb - len(ret0)
 //@   assumecall InboundBuffered: ret0 == inb
 //@   modifies *
-//@   noterm
 //@   ensures [C13:reassembly-state-consistent] gcc != nil && ccInv(gcc) && inb >= 0
 //@   ensures [C13:returns-only-when-starved] action == gnet.None ==> (gcc.buffer == nil ? inb == 0 : inb < len(gcc.buffer) - gcc.readN)
 //@   callsite Write?: [C13:over-limit-answer-is-one-frame] len(arg1) >= 14 && len(arg1) - 2 <= 65535 && BE16(arg1, 0) == uint16(len(arg1) - 2)
 //@   loop 1:
 //@     invariant gcc == cc && cc != nil && cc.idleTimer != nil && ccInv(cc) && inb >= 0
+//@     decreases inb
+
+// The per-query goroutine of the gnet listener: one response, written as one frame; the query message is used
+// only while the goroutine still owns it.
+//@ closure gnetServer.OnTraffic$1
+//@   props C20 C13 C03
+//@   requires e != nil && routerReady(e.r) && e.logger != nil && c != nil && cc != nil && m != nil && wfMsg(m) && !attr(released, m)
+//@   ghost nAW int = 0
+//@   oncall AsyncWrite: nAW = nAW + 1
+//@   modifies *
+//@   ensures [C03:exactly-one-write] nAW == 1
+//@   callsite AsyncWrite: [C13:one-framed-write] len(arg1) >= 14 && len(arg1) - 2 <= 65535 && BE16(arg1, 0) == uint16(len(arg1) - 2)
